@@ -74,12 +74,29 @@ class _Simp(ast.NodeTransformer):
     def _comp(self, node):
         self.generic_visit(node)
         if len(node.generators) == 1 and not node.generators[0].ifs and isinstance(node.generators[0].iter, (ast.List, ast.Tuple)) \
-                and isinstance(node.generators[0].target, ast.Name) and not any(isinstance(x, ast.Starred) for x in node.generators[0].iter.elts) \
+                and not any(isinstance(x, ast.Starred) for x in node.generators[0].iter.elts) \
                 and isinstance(node, (ast.ListComp, ast.GeneratorExp)) and len(node.generators[0].iter.elts) <= 4:
-            v = node.generators[0].target.id
-            return ast.copy_location(ast.List(elts=[norm._Subst({v: x}).visit(copy.deepcopy(node.elt)) for x in node.generators[0].iter.elts], ctx=ast.Load()), node)
+            tg = node.generators[0].target
+            if isinstance(tg, ast.Name):
+                return ast.copy_location(ast.List(elts=[norm._Subst({tg.id: x}).visit(copy.deepcopy(node.elt)) for x in node.generators[0].iter.elts], ctx=ast.Load()), node)
+            # (f(a, b) for a, b in ((x1, y1), (x2, y2)))
+            if isinstance(tg, ast.Tuple) and all(isinstance(t, ast.Name) for t in tg.elts) and all(
+                    isinstance(x, ast.Tuple) and len(x.elts) == len(tg.elts) for x in node.generators[0].iter.elts):
+                return ast.copy_location(ast.List(elts=[norm._Subst({t.id: y for t, y in zip(tg.elts, x.elts)}).visit(copy.deepcopy(node.elt))
+                                                        for x in node.generators[0].iter.elts], ctx=ast.Load()), node)
         return node
     visit_ListComp = _comp
+
+    def visit_Subscript(self, node):
+        self.generic_visit(node)
+        # [a, b][0] -> a   (also for the i-th item of a written-out generator, as produced by unpacking it)
+        v = node.value
+        if isinstance(v, ast.GeneratorExp):
+            v = self._comp(copy.deepcopy(v))
+        if isinstance(v, (ast.List, ast.Tuple)) and isinstance(node.slice, ast.Constant) and type(node.slice.value) is int \
+                and 0 <= node.slice.value < len(v.elts) and not any(isinstance(x, ast.Starred) for x in v.elts) and isinstance(node.ctx, ast.Load):
+            return v.elts[node.slice.value]
+        return node
 
 
 def _simplify(e):
@@ -87,7 +104,7 @@ def _simplify(e):
         return None
     e = _Simp().visit(e)
     # substitution of locals can expose idioms (a generator pipeline, any(v == x ..)) that the expression normaliser removes
-    if any(isinstance(n, (ast.GeneratorExp, ast.ListComp, ast.SetComp, ast.DictComp)) for n in ast.walk(e)):
+    if any(isinstance(n, (ast.GeneratorExp, ast.ListComp, ast.SetComp, ast.DictComp, ast.JoinedStr)) for n in ast.walk(e)):
         from .canon import _BoundVars, _ExprNorm
         e = _BoundVars().visit(_ExprNorm().visit(copy.deepcopy(e)))
     return e
